@@ -3,7 +3,8 @@ MANIFEST = {
     "engine": "symrun",
     "category": "proof",
     "text": "Postconditions on the real CovModel methods and on every shipped cor/correlation/calc_integral_scale, for ALL lags and ALL parameter values inside their bounds (symbolic reals): the four derivations of _init_subclass are mutually consistent for user classes defined by any one of cor/correlation/covariance/variogram (uninterpreted functions); nugget/axis/spatial/Yadrenko variants equal the isotropic functions of the transformed lag; each shipped model equals the closed form transcribed from its docstring on every branch; integral-scale overrides equal the tabulated closed forms and are homogeneous of degree one; percentile_scale solves 1 - correlation(x) - per. Added after the seeding rounds: closed forms of the classes with a dimension parameter for lat-lon, lat-lon+time and 2-D+time models (d = model dimension); exp_int / inc_gamma order dispatch on the real functions; bounded comparison of exp_int with mpmath.expint (15 orders x 27 arguments)."
-            " Round 7: cor of the truncated power law classes respects len_low (F45 repaired: correlation(r) = cor(rescale r / len_scale) also for the classes that define both functions); bounded native contract on the numerically computed integral scale of the compact-support models for length scales up to 1e6 (F46 repaired).",
+            " Round 7: cor of the truncated power law classes respects len_low (F45 repaired: correlation(r) = cor(rescale r / len_scale) also for the classes that define both functions); bounded native contract on the numerically computed integral scale of the compact-support models for length scales up to 1e6 (F46 repaired)."
+            " Matern with nu > 20: integral scale of the Gaussian limit (F47 repaired).",
     "level_note": "floats as reals (T1); special functions (exp, pow, gamma, kv, jv, hyp2f1, E_s) are uninterpreted: a wrong argument, factor, exponent or branch is detected, a wrong scipy function value is not; tools.special.exp_int is replaced by its contract E_s(x) for symbolic arguments (its internal regimes are not proved); that the tabulated integral scales ARE the integrals of the correlation, and root/quad accuracy, are residues (T8/T5).",
     "technique": "contract-based deductive verification: symbolic execution of the real Python methods against sidecar postconditions from the docstrings, VCs discharged by z3/cvc5 with instantiated axiom hints",
 }
